@@ -201,6 +201,25 @@ impl Inflights {
     }
 }
 
+#[cfg(tikv_raft_rs_verif)]
+impl Inflights {
+    /// Read-only view for the verification harness: the logical content of the
+    /// window (oldest first), the capacity and the pending (reduced) capacity.
+    #[doc(hidden)]
+    pub fn verif_window(&self) -> (Vec<u64>, usize, Option<usize>) {
+        let mut content = Vec::with_capacity(self.count);
+        let mut idx = self.start;
+        for _ in 0..self.count {
+            content.push(self.buffer[idx]);
+            idx += 1;
+            if idx >= self.cap {
+                idx -= self.cap;
+            }
+        }
+        (content, self.cap, self.incoming_cap)
+    }
+}
+
 #[cfg(test)]
 mod tests {
     use super::Inflights;
